@@ -64,6 +64,21 @@ struct Run : ContBase {
         if (v->max != max0) grown++;
         if ((grown && pos > 0 && pos < n) || after_resize0) nt++;
     }
+    bool burst_case = false;
+    void do_burst() {
+        size_t k = (size_t)s.range(50, 1500), n0 = m.size();
+        bool front = s.chance(1, 6) && k <= 300;            // inserting at the front shifts everything: keep those bursts short
+        c.op("burst: %zu x %s n=%zu cap=%zu", k, front ? "addfirst" : "addlast", n0, v->max);
+        for (size_t i = 0; i < k; i++) {
+            std::string e(objsize, '\0'); uint32_t h = (uint32_t)(n0 + i) * 2654435761u; for (size_t j = 0; j < objsize; j++) e[j] = (char)(h >> (8 * (j & 3))) ^ (char)j;
+            Buf eb(e);
+            errno = poison;
+            bool ok = front ? qvector_addfirst(v, eb.p) : qvector_addlast(v, eb.p);
+            if (!ok) c.fail(FUNC, "vector:add-result", "add number %zu of a burst returned false with %zu elements (errno=%d)", i + 1, m.size(), errno);
+            if (front) m.insert(m.begin(), e); else m.push_back(e);
+        }
+        grown++; nt++;
+    }
     void do_get() {
         int api = (int)s.pick({2, 2, 4});
         long idx = api == 0 ? 0 : api == 1 ? -1 : gen_index();
@@ -212,10 +227,13 @@ struct Run : ContBase {
         if (!v) c.fail(FUNC, "vector:ctor", "qvector(%zu,%zu,%d) returned NULL", cap, objsize, opt);
         c.op("qvector(max=%zu, objsize=%zu, options 0x%x: %s%s%s)", cap, objsize, opt, policy == 0 ? "EXACT" : policy == 1 ? "LINEAR" : "DOUBLE", combo ? " [policy bits combined]" : "", tsafe ? " THREADSAFE" : "");
         int maxops = c.tier ? 2000 : 400, ops = 0;
+        burst_case = objsize <= 64 && s.chance(1, 15);     // element counts in the hundreds and thousands (many growth steps), not only a few dozen
+        if (burst_case) { c.tag("case_with_burst_adds"); maxops = 120; }
         while (!s.exhausted() && ops++ < maxops) {
-            int o = (int)s.pick({30, 10, 8, 20, 4, 1, 3, 3, 3, 1, 2});
+            int o = (int)s.pick({30, 10, 8, 20, 4, 1, 3, 3, 3, 1, 2, burst_case ? 2 : 0});
             const char *what = "op";
             switch (o) {
+                case 11: do_burst(); what = "burst"; break;
                 case 0: do_add(); what = "add"; break;
                 case 1: do_get(); what = "get"; break;
                 case 2: do_set(); what = "set"; break;
